@@ -213,6 +213,15 @@ class ClassRef(object):
     def __init__(self, info):
         self.info = info
 
+    def __eq__(self, other):          # a class is one object however often it is looked up (keys of dispatch tables)
+        return isinstance(other, ClassRef) and other.info is self.info
+
+    def __ne__(self, other):
+        return not self.__eq__(other)
+
+    def __hash__(self):
+        return hash(('ClassRef', id(self.info)))
+
     def __repr__(self):
         return 'class %s' % self.info.name
 
